@@ -37,7 +37,12 @@ func main() {
 	seedF := flag.Int64("seed", -1, "seed (default: VERIF_SEED or 1)")
 	replay := flag.String("replay", "", "replay file")
 	root := flag.String("root", "", "harness root (default: VERIF_ROOT or /verif)")
+	worker := flag.String("worker", "", "internal: run as a worker process")
 	flag.Parse()
+	if *worker != "" {
+		runWorker(*worker)
+		return
+	}
 	if *root != "" {
 		core.Root = *root
 	} else if e := os.Getenv("VERIF_ROOT"); e != "" {
@@ -101,4 +106,14 @@ func flagSet(name string) bool {
 		}
 	})
 	return set
+}
+
+func runWorker(kind string) {
+	switch kind {
+	case "dot":
+		dotWorker()
+	default:
+		fmt.Println("unknown worker", kind)
+		os.Exit(2)
+	}
 }
